@@ -227,6 +227,7 @@ pub fn run(ctx: &Ctx) -> i32 {
     Sweep(u64, u64),
     Stairs(usize, usize),
     Pow4(u32),
+    SameNumber,
   }
   let mut jobs: Vec<Job> = (0..njobs_hist).map(Job::Hist).collect();
   let run_depths: Vec<u8> = if quick { vec![3] } else { vec![3, 4, 6] };
@@ -292,6 +293,7 @@ pub fn run(ctx: &Ctx) -> i32 {
   for k in 1..=(if quick { 11u32 } else { 12 }) {
     jobs.push(Job::Pow4(k));
   }
+  jobs.push(Job::SameNumber);
   let chunk = 256;
   let mut lo = 0;
   while lo < all_seq.len() {
@@ -508,6 +510,37 @@ pub fn run(ctx: &Ctx) -> i32 {
           part.stratum("repush-size-sweep", 1, 1);
           if let Some(v) = check_history(d, true, (n + 1) as usize, &p2, &mut part) {
             part.viol(v);
+          }
+        }
+      }
+      Job::SameNumber => {
+        // two aligned blocks with the same block number j: [j 4^a, (j+1) 4^a) and [j 4^b, (j+1) 4^b),
+        // a < b, pushed in separate buffers (they pack into cells (d-a, j) and (d-b, j))
+        for b in 1..=3u32 {
+          for a in 0..b {
+            for j in 1..=6u64 {
+              let d = (b as u8 + 1).max(3);
+              let (la, lb) = (1u64 << (2 * a), 1u64 << (2 * b));
+              if (j + 1) * lb > n_hash(d) {
+                continue;
+              }
+              let blk_a: Vec<u64> = (j * la..(j + 1) * la).collect();
+              let blk_b: Vec<u64> = (j * lb..(j + 1) * lb).collect();
+              let orders: Vec<(Vec<u64>, usize)> = vec![
+                ([vec![j * la], blk_b.clone(), blk_a.clone()].concat(), 1 + lb as usize),
+                ([blk_a.clone(), vec![j * la], blk_b.clone()].concat(), la as usize),
+                ([blk_b.clone(), blk_a.clone()].concat(), lb as usize),
+                ([blk_a.clone(), blk_b.clone()].concat(), la as usize),
+              ];
+              for (pushes, cap) in orders {
+                for full in [true, false] {
+                  part.stratum("same-number-blocks", 1, 1);
+                  if let Some(v) = check_history(d, full, cap.max(1), &pushes, &mut part) {
+                    part.viol(v);
+                  }
+                }
+              }
+            }
           }
         }
       }
